@@ -9,7 +9,7 @@
    keeping the prefix, and every element constructed is destroyed exactly once
    across erase, clear, assignment and destruction."
 
-  The model (`Model.lean`) is the code after the nine `fix:` commits of branch
+  The model (`Model.lean`) is the code after the eight `fix:` commits of branch
   fix-C14; the bodies as they were are kept as `…Orig` and refuted by the
   `…_witness` theorems below.  All theorems hold for EVERY capacity `N`
   (including the degenerate N = 0), every number of objects K, both twins
